@@ -223,6 +223,10 @@ def build(pym, cfg):
                 herm = cfg["cls"] in ("herm", "hpd") or (not cplx and sym)
                 solver_kw["symmetric"] = sym if (cplx or True) else None
                 solver_kw["hermitian"] = herm
+        if kind in ("LinSolve", "SystemOfEquations") and cfg["solver"] != "nolda":
+            # the linear-dependency-aware wrapper answers a right-hand side from its database when the residual is below its
+            # tolerance (1e-7 relative): results are linear in the seed only "to solver tolerance"
+            E["lin_tol"] = max(E["lin_tol"], 1e-5)
         if kind == "LinSolve":
             sb, sx = S("b"), S("x")
             mod = pym.LinSolve([sA, sb], sx, **solver_kw)
